@@ -24,6 +24,8 @@ def verdictOf (e : Gen.ApiEntry) : String :=
     let ok2 := analysisOK Gen.summaries i.prog (i.fuel + 2)
     let same := ok2 && w.all (w2.contains ·) && w2.all (w.contains ·) && g.all (g2.contains ·) && g2.all (g.contains ·)
     s!"writes={",".intercalate (w.map (paramName e))}|globals={",".intercalate (g.map (fun k => Gen.globalNames.getD k (toString k)))}" ++
+    s!"|share={",".intercalate ((mayShareIn i.table i.ret).map (paramName e))}" ++
+    s!"|shareglobals={",".intercalate ((mayShareGlobalIn i.table i.ret).map (fun k => Gen.globalNames.getD k (toString k)))}" ++
     s!"|editor={if e.editor then 1 else 0}|random={if e.random then 1 else 0}|closed={if closed then 1 else 0}" ++
     s!"|recheck={if same then "same" else "diff"}"
 
@@ -34,6 +36,7 @@ def step (line : String) : String :=
     | some e => verdictOf e
     | none => "unknown"
   | ["outside"] => ",".intercalate declaredOutside
+  | ["sharing"] => ",".intercalate declaredSharing
   | ["count"] => toString Gen.fns.length
   | _ => "bad-op"
 
